@@ -374,6 +374,67 @@ def _signed_terms(t, sign=1, out=None):
     return out
 
 
+def welford_mean_history(F, R, name='WelfordOnline', rule='W5-mean-history'):
+    """From the initial state, after every delivered value some float cell equals the arithmetic mean of the values currently in
+    the window queue, weight by weight (abstract execution in the linear-form domain, one symbol per input; the add/remove
+    recurrences are exact in real arithmetic, so the comparison tolerance only absorbs the rounding of the coefficients)."""
+    from .lti import transient, Form, NonConst
+    v = view_by_name(F).get(name)
+    if v is None:
+        return
+    fl = flow(F, v)
+    m = fl.m
+    qs = queue_buffers(fl)
+    cells = [c for c in float_cells(fl) if c not in fl.B.buffers]
+    mm = [x for x in m.ctor_models if x['fn'].name == 'new' and x['init'] is not None]
+    if not qs or not mm:
+        R.ob(rule, name, False, 'no window queue / constructor found', v.file)
+        return
+    ints = [nm for (pid, nm, ty) in mm[0]['fn'].param_ids() if ty == 'usize']
+    alive = None
+    steps = 0
+    detail = ''
+    for N in (1, 2, 3, 5, 8):
+        cand = {c: True for c in cells}
+        why = {}
+
+        def probe(k, ev, ex, N=N):
+            nonlocal steps
+            try:
+                q = ev.ev(ex.fields.get(qs[0], ('in', qs[0])))
+            except NonConst:
+                return
+            if not isinstance(q, list) or not q or not all(isinstance(x, Form) for x in q):
+                return
+            steps += 1
+            want = Form()
+            for x in q:
+                want = want.plus(x, 1.0 / len(q))
+            for c in list(cand):
+                if not cand[c]:
+                    continue
+                try:
+                    f = ev.ev(ex.fields.get(c, ('in', c)))
+                except NonConst:
+                    cand[c] = False
+                    continue
+                keys = (set(f) | set(want)) if isinstance(f, Form) else set()
+                if not isinstance(f, Form) or any(abs(f.get(a, 0.0) - want.get(a, 0.0)) > 1e-9 for a in keys):
+                    cand[c] = False
+                    if isinstance(f, Form) and keys:
+                        a = max(keys, key=lambda a_: abs(f.get(a_, 0.0) - want.get(a_, 0.0)))
+                        why[c] = 'N=%d, after %d values: weight of %s in `%s` is %.6g, the mean of the %d windowed values gives %.6g' % (
+                            N, k + 1, a, c, f.get(a, 0.0), len(q), want.get(a, 0.0))
+        transient(m, 'new', {ints[0]: N}, 3 * N + 6, probe=probe)
+        ok_cells = {c for c, o in cand.items() if o}
+        alive = ok_cells if alive is None else (alive & ok_cells)
+        if not ok_cells and why and not detail:
+            detail = sorted(why.values())[0]
+    good = bool(alive) and steps > 0
+    R.ob(rule, name, good, 'from the initial state the cell `%s` is the arithmetic mean of the values in the window after every update (%d steps, N in 1,2,3,5,8)' % (sorted(alive)[0], steps)
+         if good else (detail or 'no float cell equals the mean of the windowed values at every step'), v.file)
+
+
 def check_welford_cross(F, R, name='WelfordOnline', rule='W5-cross'):
     """The sum of squared deviations is maintained by Welford's recurrence: every change of the m2 cell is
     +(x − mean_before)(x − mean_after) for the value x that enters and −(e − mean_before)(e − mean_after) for the value e that
@@ -656,6 +717,7 @@ def run_c02(F, R):
     check_extrema(F, R, {'Min': 1, 'Max': 1, 'HLNormalizer': 2})
     check_welford(F, R, 'WelfordOnline')
     check_welford_cross(F, R, 'WelfordOnline')
+    welford_mean_history(F, R, 'WelfordOnline')
     check_predicate_counter(F, R, 'BinaryEntropy')
     no_raw_in_state(F, R, spec.WINDOW_VIEWS)
     from .e_typed_props import no_absolute_thresholds
